@@ -138,7 +138,11 @@ def run(ctx: Ctx) -> Result:
                 'runahead limits': 'P1..P3',
                 'final point<=': ctx.pick(5, 7)},
         assumptions=ASSUME, min_states=100,
-        extra_cov={'seam_counters': counts})
+        extra_cov={'seam_counters': counts,
+                   'seam_counters_note': (
+                       'observations summed over every execution, including '
+                       're-executed prefixes (vacuity guards, not distinct '
+                       'cases)')})
 
 
 def replay(payload):
